@@ -59,6 +59,7 @@ Feat(tv) == IF tv.g \in {"ptr", "iface"} THEN UNION {Feat(tv.a[i]) : i \in 1..Le
                  \cup (IF \E i \in 1..Len(tv.a) : tv.a[i].g = "ptr" /\ tv.a[i].nil THEN {"nil-pointer-element"} ELSE {})
                  \cup UNION {Feat(tv.a[i]) : i \in 1..Len(tv.a)}
             ELSE IF tv.g = "struct" THEN
+                 (IF "cyc" \in DOMAIN tv THEN {"embedded-pointer-cycle"} ELSE {}) \cup
                  UNION {IF ~tv.f[i].exp THEN {}
                              ELSE (IF tv.f[i].emb /\ tv.f[i].v.g = "ptr" THEN {"embedded-pointer"} ELSE {}) \cup Feat(tv.f[i].v) : i \in 1..Len(tv.f)}
             ELSE IF tv.g \in {"bool", "int", "uint8", "float", "string"} THEN
@@ -90,7 +91,8 @@ Class(e) == LET F == Feat(e.orig) IN
             ELSE IF "nil-pointer-element" \in F THEN "nil-pointer-element"
             ELSE IF e.tagkeyed /\ ~Same(e.orig, AsImpl6(e.orig)) /\ Same(e.res, AsImpl6(e.orig)) THEN "tag-names-other-member" ELSE "-"
 \* a call that does not return (watchdog in the harness: the child process was killed or died) is a violation of its own kind
-JudgeRt(e) == IF e.hang THEN <<[i |-> c, kind |-> "hang", api |-> e.api, t |-> "-", pos |-> 0, pred |-> <<>>, m |-> e.m]>> ELSE
+JudgeRt(e) == IF e.hang THEN <<[i |-> c, kind |-> "hang", api |-> e.api, pos |-> 0, pred |-> <<>>, m |-> e.m,
+                                 t |-> IF "embedded-pointer-cycle" \in Feat(e.orig) THEN "embedded-pointer-cycle" ELSE "-"]>> ELSE
               (IF e.ok /\ Same(e.res, e.orig) THEN <<>>
                ELSE <<[i |-> c, kind |-> "not-inverse", api |-> e.api, t |-> Class(e), pos |-> 0, pred |-> <<>>, m |-> e.m]>>)
               \o (IF e.ok /\ e.alias /\ ~e.oalias
